@@ -583,7 +583,8 @@ Fixpoint zadd_loop (k : bytes) (prs : list bytes) (incr xx nx lt gt : bool) (cou
       | FErr => ret [WErr] d
       | FUnmodelled => BUnm
       | FOk s =>
-          if incr then lift (api_zincrby k mem s now d) (fun v d' => ret [WBulk (format_score v)] d')
+          if incr then lift (api_zincrby k mem s now d)
+                            (fun v d' => ret [match v with Some x => WBulk (format_score x) | None => WErr end] d')
           else if xx then lift (api_zadd_gen 1 k mem s now d) (fun n d' => ret [WInt n] d')
           else if nx then lift (api_zadd_gen 2 k mem s now d) (fun n d' => ret [WInt n] d')
           else if lt then lift (api_zadd_cmp true k mem s now d) (fun n d' => ret [WInt n] d')
@@ -634,7 +635,8 @@ Definition h_zincrby (args : list bytes) : hres :=
               | FErr => HErr
               | FUnmodelled => HUnm
               | FOk s => HBody (fun now d =>
-                  lift (api_zincrby (a0 args) (a2 args) s now d) (fun v d' => ret [WBulk (format_score v)] d'))
+                  lift (api_zincrby (a0 args) (a2 args) s now d)
+                       (fun v d' => ret [match v with Some x => WBulk (format_score x) | None => WErr end] d'))
               end.
 
 Definition items_reply (withscores : bool) (its : list item) : list wact :=
